@@ -705,9 +705,16 @@ pub fn run_scenario(s: &Scn) -> Value {
             let class = s.data_class.clone();
             let seed = s.seed;
             let total: usize = calls.iter().filter(|c| c.op == "write").map(|c| c.n).sum();
-            let input = match &class {
-                Some(c) => gen::data(c, total, seed),
-                None => unit_data(0, total, None, seed),
+            let preset_w = s.preset;
+            let input = if preset_w {
+                // data that resembles the preset dictionary: a unit encoded against it would refer back into it
+                let p = preset_dict();
+                (0..total).map(|i| p[(i * 3 + (i / 700) * 11) % p.len()]).collect::<Vec<u8>>()
+            } else {
+                match &class {
+                    Some(c) => gen::data(c, total, seed),
+                    None => unit_data(0, total, None, seed),
+                }
             };
             let input2 = input.clone();
             let sink_buf = Arc::new(Mutex::new(Vec::new()));
@@ -769,6 +776,9 @@ pub fn run_scenario(s: &Scn) -> Value {
                     let mut o = lzma2_opts();
                     o.lzma_options.dict_size = MT_DICT.min(unit.max(4096) as u32);
                     o.chunk_size = NonZeroU64::new(unit as u64);
+                    if preset_w {
+                        o.lzma_options.preset_dict = Some(preset_dict());
+                    }
                     drive!(LZMA2WriterMT::new(sink, o, workers).unwrap());
                 }
                 let mut ob = o2.lock().unwrap();
@@ -835,7 +845,8 @@ fn finish_result(s: &Scn, expected: &[Vec<u8>], rp: Report, g: &GRep, o: &Obs) -
             (ok, out, count_lzip_members(&o.compressed))
         } else {
             let mut out = Vec::new();
-            let mut r = LZMA2Reader::new(o.compressed.as_slice(), MT_DICT, None);
+            let pd = preset_dict();
+            let mut r = LZMA2Reader::new(o.compressed.as_slice(), MT_DICT, if s.preset { Some(pd.as_slice()) } else { None });
             let ok = r.read_to_end(&mut out).is_ok();
             (ok, out, count_lzma2_units(&o.compressed))
         };
